@@ -59,9 +59,16 @@ def discard (x scale offset : Nat) : Nat :=
 def applySlice (t : Num) (ps : List Nat) (scale offset : Nat) : List Nat :=
   ps.map fun p => apply (toF64 t p) scale offset
 
-/-- `DiscardSlice[T]`: its own unit test and its own conversion -/
+/-- `isInteger := T(half) == 0` of `DiscardSlice` -/
+def Num.isInteger : Num → Bool
+  | .int _ => true
+  | _ => false
+
+/-- `DiscardSlice[T]`: its own unit test and its own conversion; for an integer `T` the product is rounded to
+the nearest integer (`math.Round`) before the conversion -/
 def discardSlice (t : Num) (xs : List Nat) (scale offset : Nat) : List Nat :=
   if isUnit scale offset then xs.map (conv t)
+  else if t.isInteger then xs.map fun x => conv t (round (mul (add x offset) scale))
   else xs.map fun x => conv t (mul (add x offset) scale)
 
 /-! ### proto.Value level -/
@@ -117,8 +124,11 @@ def tgtOfBaseType (bt : Nat) : Option Num :=
   else if bt = btUint64 ∨ bt = btUint64z then some (.int .u64)
   else none
 
-/-- `DiscardValue` on a `TypeFloat64` value: `dv := Discard(...)`, then the conversion of the base type -/
-def discardScalar (t : Num) (x scale offset : Nat) : Nat := conv t (discard x scale offset)
+/-- `DiscardValue` / `DiscardAny` on a float64: `dv := Discard(...)`; `if baseType != Float32 && baseType != Float64
+{ dv = math.Round(dv) }`; then the conversion of the base type (`t` is the type the base type selects) -/
+def discardScalar (t : Num) (x scale offset : Nat) : Nat :=
+  let dv := discard x scale offset
+  conv t (if t.isInteger then round dv else dv)
 
 /-- `DiscardValue` -/
 def discardValue (v : Value) (bt scale offset : Nat) : Value :=
@@ -139,9 +149,10 @@ def discardValueFlag (v : Value) (bt scale offset : Nat) : Bool :=
   | none => false
   | some t =>
     match v with
-    | .float64 x => convFlag t (discard x scale offset)
+    | .float64 x => convFlag t (if t.isInteger then round (discard x scale offset) else discard x scale offset)
     | .sliceFloat64 xs =>
-      if isUnit scale offset then xs.any (convFlag t) else xs.any fun x => convFlag t (mul (add x offset) scale)
+      if isUnit scale offset then xs.any (convFlag t)
+      else xs.any fun x => convFlag t (if t.isInteger then round (mul (add x offset) scale) else mul (add x offset) scale)
     | _ => false
 
 /-! ### `any` level -/
@@ -240,8 +251,11 @@ def csvTgt (bt : Nat) : Option Num :=
   else none
 
 /-- `parseValue` for a cell that contains a '.', after `strconv.ParseFloat` returned `x`:
-`Discard(x, scale, offset)` then the conversion of the base type; `none` = the zero `proto.Value` -/
+`Discard(x, scale, offset)`, `math.Round` unless the base type is float32/float64, then the conversion of the
+base type; `none` = the zero `proto.Value` -/
 def csvParseScaled (x bt scale offset : Nat) : Option Value :=
-  (csvTgt bt).map fun t => mkScalar t (conv t (discard x scale offset))
+  (csvTgt bt).map fun t =>
+    let dv := discard x scale offset
+    mkScalar t (conv t (if t.isInteger then round dv else dv))
 
 end Fit.ScaleOffset
